@@ -22,7 +22,8 @@ def plan(tier, seed):
     return plan_codec(tier, seed, ["C12"], quick_n=500, scr_k=5 if tier == "quick" else 25,
                       thorough_budget=60,
                       extra=[{"kind": "container-scramble", "n": 60 if tier == "quick" else 1500},
-                             {"kind": "container-layout", "n": 300 if tier == "quick" else 20000}])
+                             {"kind": "container-layout", "n": 300 if tier == "quick" else 20000},
+                             {"kind": "full-width", "n": 200 if tier == "quick" else 5000}])
 
 
 def run_shard(desc, rec):
@@ -32,6 +33,9 @@ def run_shard(desc, rec):
     if desc["kind"] == "container-layout":
         from ..drivers import layout
         return layout.shard_container_layout(desc, rec)
+    if desc["kind"] == "full-width":
+        from ..drivers import layout
+        return layout.shard_full_width(desc, rec)
     codec.run_shard(desc, rec)
 
 
